@@ -87,15 +87,20 @@ def resolve (st : St) : Val → Option Nat
   | .addrOf s => (findSec st s).map (·.addr)
   | .unknown => none
 
-/-- a name used as an operand: a `0x…` literal or a symbol. -/
+/-- a token that is not an assigned symbol: a `0x…` or decimal literal. -/
+def literal (s : Str) : Option Nat :=
+  match stripPrefix? c!"0x" s >>= parseHex with
+  | some n => some n
+  | none => parseDec s
+
+/-- a name used as an operand: the location counter, a symbol, or a literal. (A script ld
+accepts never assigns to a token that lexes as a number, so looking the name up first is the
+same as lexing first.) -/
 def operand (st : St) (s : Str) : Option Nat :=
   if s = c!"." then some st.dot
-  else match stripPrefix? c!"0x" s >>= parseHex with
-    | some n => some n
-    | none =>
-      match parseDec s with
-      | some n => some n
-      | none => (lookupLast s st.syms) >>= resolve st
+  else match lookupLast s st.syms with
+    | some v => resolve st v
+    | none => literal s
 
 /-- the location counter as an expression sees it: relative to the start of the output
 section inside one, absolute outside. -/
@@ -114,11 +119,11 @@ def eval (st : St) : Expr → Val
   | .hex n => .num n
   | .dot => .num st.dot
   | .sym s =>
-    (match stripPrefix? c!"0x" s >>= parseHex with
-     | some n => .num n
+    (match lookupLast s st.syms with
+     | some v => (match resolve st v with | some n => .num n | none => v)
      | none =>
-       match lookupLast s st.syms with
-       | some v => (match resolve st v with | some n => .num n | none => v)
+       match literal s with
+       | some n => .num n
        | none => .unknown)
   | .addr sec =>
     (match findSec st sec with
@@ -193,6 +198,22 @@ takes — their own, and the `SUBALIGN` value that replaces it for placing them.
 def maxAlign (sub : Option Nat) (l : List InSec) : Nat :=
   l.foldl (fun m i => max m (max i.align (effAlign sub i))) 1
 
+/-- where an output section starts: at the value of its address expression, otherwise at the
+location counter rounded up to the alignment `al` of its contents. -/
+def hdrStart (st : St) (addr : Option Str) (al : Nat) : Nat :=
+  match addr with
+  | some a => (match operand st a with | some v => v | none => st.dot)
+  | none => alignUp st.dot al
+
+/-- a symbol is assigned between the braces (then ld keeps the section even when empty). -/
+def hasSymbol (body : List Line) : Bool :=
+  body.any fun l => match l with
+    | .assign s _ _ _ _ => s ≠ c!"."
+    | .addAssign s _ => s ≠ c!"."
+    | _ => false
+
+def closedSec (c : Cur) (dot : Nat) : OutSec := ⟨c.name, c.addr, dot - c.addr, c.lma, c.noload, c.align⟩
+
 def setSym (st : St) (s : Str) (v : Val) : St := { st with syms := st.syms ++ [(s, v)] }
 
 /-- one statement. `rest` is what follows it (an output-section header looks ahead to the end
@@ -219,16 +240,9 @@ def step (objs : List InSec) (st : St) (l : Line) (rest : List Line) : St :=
   | .outHdr name noload addr lma sub =>
     let takes := willTake objs st (blockBody rest) []
     let al := maxAlign sub takes
-    let start :=
-      match addr with
-      | some a => (match operand st a with | some v => v | none => st.dot)
-      | none => alignUp st.dot al
-    let lmaV := lma.bind (operand st)
-    let keep := (blockBody rest).any fun l => match l with
-      | .assign s _ _ _ _ => s ≠ c!"."
-      | .addAssign s _ => s ≠ c!"."
-      | _ => false
-    { st with dot := start, cur := some ⟨name, start, lmaV, noload, sub, al, st.dot, keep⟩ }
+    let start := hdrStart st addr al
+    { st with dot := start,
+              cur := some ⟨name, start, lma.bind (operand st), noload, sub, al, st.dot, hasSymbol (blockBody rest)⟩ }
   | .input _ p m s w =>
     (match st.cur with
      | some c =>
@@ -257,14 +271,18 @@ def step (objs : List InSec) (st : St) (l : Line) (rest : List Line) : St :=
          -- `emptied` and are outside what this semantics claims.)
          { st with cur := none, dot := c.dot0, emptied := true }
        else
-       { st with cur := none,
-                 secs := st.secs ++ [⟨c.name, c.addr, st.dot - c.addr, c.lma, c.noload, c.align⟩] }
+       { st with cur := none, secs := st.secs ++ [closedSec c st.dot] }
      | none => { st with inDiscard := false })
   | _ => st
 
 def exec (objs : List InSec) : St → List Line → St
   | st, [] => st
   | st, l :: rest => exec objs (step objs st l rest) rest
+
+/-- executing `a` when `k` follows it (`exec objs st l = execK objs st l []`). -/
+def execK (objs : List InSec) : St → List Line → List Line → St
+  | st, [], _ => st
+  | st, l :: r, k => execK objs (step objs st l (r ++ k)) r k
 
 /-- the linked image: final symbol values (forward `ADDR` resolved), output sections, the
 address of every placed input section, the discarded ones. -/
